@@ -335,9 +335,10 @@ class Decoder(wiring.Component):
                 raise ValueError(f"Subordinate bus has optional output {opt_output!r}, but the "
                                  f"decoder does not have a corresponding input")
 
+        window_range = self.bus.memory_map.add_window(sub_bus.memory_map, name=name, addr=addr,
+                                                      sparse=sparse)
         self._subs[sub_bus.memory_map] = sub_bus
-        return self.bus.memory_map.add_window(sub_bus.memory_map, name=name, addr=addr,
-                                              sparse=sparse)
+        return window_range
 
     def elaborate(self, platform):
         m = Module()
